@@ -262,6 +262,58 @@ def r125(facts, res, cone, cg):
     res.floor(R, 'unwrapped peeks at the character under a cursor', n, 8)
 
 
+def r126(facts, res):
+    """Span extents are differences of offsets into the source (or lengths of slices OF the source).  The length of an owned
+    String is the length of a processed copy - trimmed, unescaped - and says nothing about how much source text the piece covers
+    or where it starts: a span built from it can start at the wrong place and end inside a character, after which it cannot be
+    rendered."""
+    R = 'R12.6'
+    n = 0
+    nbad = 0
+    for b in facts.lib_bodies(['cfgrammar', 'lrlex']):
+        if b.from_expansion or not in_scanner(b.path):
+            continue
+        spans = [(bb, t) for bb, t in b.calls() if (cpath(t) or '').endswith('span::Span::new')]
+        if not spans:
+            continue
+        n += len(spans)
+        seeds = set()
+        for bb, t in b.calls_named('len'):
+            c = callee_of(t)
+            if c and c['path'].startswith('alloc::string::String'):
+                seeds.add(t['dest']['l'])
+        if not seeds:
+            continue
+        tainted = set(seeds)
+        changed = True
+        while changed:
+            changed = False
+            for bb in b.reachable():
+                for st in b.blocks[bb]['stmts']:
+                    if st['k'] != 'assign' or st['lhs']['p']:
+                        continue
+                    rv = st['rv']
+                    src = []
+                    if 'use' in rv and op_place(rv['use']):
+                        src.append(op_place(rv['use'])['l'])
+                    if 'bin' in rv:
+                        for o in (rv['a'], rv['b']):
+                            if op_local(o) is not None:
+                                src.append(op_local(o))
+                    if any(x in tainted for x in src) and st['lhs']['l'] not in tainted:
+                        tainted.add(st['lhs']['l'])
+                        changed = True
+        for bb, t in spans:
+            if any(op_local(a) in tainted for a in t['args']):
+                nbad += 1
+                res.bad(R, 'span-from-string-len:%s' % strip_generics(b.path), loc_of(b, bb),
+                        'a Span bound is computed from the length of an owned String (a trimmed / processed copy of the text), not from offsets '
+                        'into the source: the span need not start where the piece starts and can end inside a character', {'function': b.path})
+    if nbad == 0:
+        res.ok(R, 'no-span-from-string-len', '', 'none of the %d Span constructions of the specification parsers takes a bound from the length of an owned String' % n)
+    res.floor(R, 'Span constructions in the specification parsers', n, 20)
+
+
 def run(facts, res):
     cg = CallGraph(facts, CRATES)
     ents = entries(facts, res, 'cone')
@@ -270,5 +322,6 @@ def run(facts, res):
     res.count('cone functions', len(cone))
     r121(facts, res, cone, cg)
     r125(facts, res, cone, cg)
+    r126(facts, res)
     r122(facts, res, cone, cg)
     r123(facts, res, cone, cg)
